@@ -895,6 +895,7 @@ func checkC15(c *runCtx) {
 		}
 		csExplore(c, "tcpmux-close-vs-getconn", b, dl, nil)
 		csExplore(c, "tcpmux-close-vs-firstframe", b-1, dl, nil)
+		csExplore(c, "tcpconn-deadline-read", b, dl, nil)
 	} else {
 		c.capHit("built without instrumentation: the concurrent scenario was not run")
 	}
